@@ -143,7 +143,7 @@ def consumes_on_continue(env, key, memo, depth=0):
                 witnesses.append(("callee", R, t))
     bad = []
     for (bi, S, span) in sites:
-        v = S.read((("L", 0), ()))
+        v = S.read((it.L(0), ()))
         d = S.dom(("discr", v)) if not (isinstance(v, tuple) and v[0] == "agg") else None
         # Err
         if isinstance(v, tuple) and v[0] == "agg" and v[2] == 1:
@@ -241,7 +241,7 @@ def stage_graph(env, body, head, stage_field):
         if S is None:
             continue
         # which stage is current at this call?
-        selfv = S.read((("L", 1), ()))
+        selfv = S.read((it.L(1), ()))
         loc = it.target(selfv)
         cur = S.read((loc[0], loc[1] + (stage_field,)))
         d = S.dom(("discr", cur))
@@ -340,7 +340,7 @@ def consumes_on_success(env, key, buffer_field):
                         it.transfer_stmt(S, s2)
                         if s2 is st:
                             break
-                    v = S.read((("L", 0), ()))
+                    v = S.read((it.L(0), ()))
                     inner = v[3][0] if isinstance(v, tuple) and v[0] == "agg" and v[3] else None
                     if isinstance(inner, tuple) and inner[0] == "agg" and inner[2] != 0:
                         continue      # NotEnoughBytes
@@ -487,7 +487,7 @@ def stage_machine(env, body, head):
             S = it.edge_out.get((s, head))
             if S is None:
                 continue
-            selfv = S.read((("L", 1), ()))
+            selfv = S.read((it.L(1), ()))
             loc = it.target(selfv)
             cur = S.read((loc[0], loc[1] + (stage_field,)))
             differs = False
@@ -554,7 +554,7 @@ def session_loop(env, body, head):
     src_local = None
     for li, l in enumerate(body.locals):
         if l["name"] and l["t"].get("k") == "ref":
-            lv = Sc.read((("L", li), ()))
+            lv = Sc.read((it.L(li), ()))
             if lv == cargs[1] or cargs[1] == ("ref", (("P", lv), ())):
                 src_local = li
     if src_local is None:
@@ -563,7 +563,7 @@ def session_loop(env, body, head):
         S = it.edge_out.get((s, head))
         if S is None:
             continue
-        v = S.read((("L", src_local), ()))
+        v = S.read((it.L(src_local), ()))
         ln = it.len_of_ref(S, v, body.locals[src_local]["t"])
         d = S.dom(ln)
         if not (d.lo == d.hi == 0):
